@@ -282,7 +282,10 @@ def gen_case(rng):
     for _ in range(n):
         k = rng.choice([1, 1, 2, 4])
         tss = [rng.choice(TSS) for _ in range(k)]  # repeats are dropped by the context itself
-        ctxs.append([rng.choice(ABS), tss])
+        if ctxs and rng.random() < 0.15:
+            ctxs.append(list(rng.choice(ctxs)))  # the very same context again (the runner may pass the same object twice)
+        else:
+            ctxs.append([rng.choice(ABS), tss])
     calling = rng.choice(["A", "ABCDEFGHIJKLMNOP", " X", "X  ", "A B", "a~!@#$%^&*()_+{}", "PYNETDICOM", "SCU"])
     called = rng.choice(["ANY-SCP", "B", "ABCDEFGHIJKLMNOP", "  PADDED  ", "q", "ACCEPTOR"])
     maxpdu = rng.choice([0, 1, 16382, 2**32 - 1, rng.randrange(2, 2**32 - 1)])
@@ -410,7 +413,19 @@ def drive(acc, case):
             scu.implementation_class_uid = impl
         if ver != "default":
             scu.implementation_version_name = ver
-        contexts = [build_context(ab, list(tss)) for ab, tss in ctxs]
+        # equal entries are, half of the time, the same PresentationContext object (`[cx] * 2`, or one object
+        # appended twice): legal input for the API, which must still number the contexts distinctly
+        import random as _random
+
+        alias_rng = _random.Random(repr(case))
+        contexts, seen_cx = [], {}
+        for ab, tss in ctxs:
+            key = (ab, tuple(tss))
+            if key in seen_cx and alias_rng.random() < 0.5:
+                contexts.append(seen_cx[key])
+            else:
+                seen_cx[key] = build_context(ab, list(tss))
+                contexts.append(seen_cx[key])
         # what the API objects hold (repeated transfer syntaxes are dropped by PresentationContext)
         cfg_ctx = [[str(cx.abstract_syntax).encode(), [str(t).encode() for t in cx.transfer_syntax]] for cx in contexts]
         items = make_ext(ext)
@@ -480,7 +495,7 @@ def expected_ac_inputs(acc, case, out, rq_canon):
 
     _, which, calling, called, ctxs, maxpdu, impl, ver, ext = case
     ae_s, srv, answers_id = acc.servers[which]
-    rq = deepcopy(out["contexts"])
+    rq = [deepcopy(cx) for cx in out["contexts"]]  # one copy per entry: entries may be the same object
     for i, cx in enumerate(rq):
         cx.context_id = 2 * i + 1
     roles = {}
@@ -645,6 +660,26 @@ FIXED = [
 ]
 
 
+def char_sweep(ctx):
+    """every 7-bit character that is not legal in an AE title / version name (all C0 controls, backslash, DELETE)
+    plus three 8-bit ones, in the calling title, the called title and the implementation version name, at a
+    generated position: the API must refuse the value or never put it on the wire"""
+    chars = list(range(0x00, 0x20)) + [0x5C, 0x7F, 0x80, 0xE9, 0xFF]
+    always = [0x00, 0x1F, 0x5C, 0x7F]
+    if ctx.quick:
+        chars = always + ctx.rng.sample([c for c in chars if c not in always], 8)
+    out = []
+    for c in chars:
+        for field in ("calling", "called", "version"):
+            body = ctx.rng.choice(["AB", "ABCDEFGHIJKLMNO", "A"])
+            i = ctx.rng.choice([0, len(body) // 2 + (len(body) == 1), len(body)])
+            val = body[:i] + chr(c) + body[i:]
+            case = ["assoc", ctx.rng.randrange(2), "SCU", "ANY-SCP", [[VER, [ILE]]], 16382, None, "default", []]
+            case[{"calling": 2, "called": 3, "version": 7}[field]] = val
+            out.append((case, f"char-sweep:{field}"))
+    return out
+
+
 def run(ctx):
     rp.quiet()
     ctx.rule = (
@@ -666,6 +701,7 @@ def run(ctx):
         cases = [(c, "fixed") for c in FIXED]
         while len(cases) < n:
             cases.append(gen_case(ctx.rng))
+        cases.extend(char_sweep(ctx))
         batch = []
         for k, (case, kind) in enumerate(cases):
             out = drive(acc, case)
